@@ -106,7 +106,22 @@ class C12(XsProp):
             vsrc = cells.source(('V', vec))
             idx = rng.choice([0, 1, -1, ln, -ln, ln + 1, -(ln + 1), ln - 1, 2 ** 63 - 1, -(2 ** 63), 2 ** 63, 2 ** 64, -(2 ** 127), 2 ** 127 - 1])
             idx2 = rng.choice([0, 1, -1, ln, -ln, ln + 1, 2, 2 ** 63 - 1, -(2 ** 63), 2 ** 64])
-            op = rng.choice(['nth', 'get', 'slice', 'reverse', 'push', 'length', 'sort', 'unbox', 'strslice', 'join'])
+            op = rng.choice(['nth', 'get', 'slice', 'reverse', 'push', 'length', 'sort', 'unbox', 'strslice', 'join', 'joinmix', 'joinmix'])
+            if op == 'joinmix':
+                # elements of mixed kinds, empty strings and empty / nested vectors included, every separator
+                def el(d=0):
+                    k = rng.random()
+                    if k < 0.35: return ('I', rng.randint(-5, 99))
+                    if k < 0.7 or d > 1: return ('S', rng.choice([b'', b'', b'a', b'xy', b'\xc3\xa9']))
+                    return ('V', [el(d + 1) for _ in range(rng.randint(0, 3))])
+                mv = [el() for _ in range(rng.randint(0, 5))]
+                sep = rng.choice(['', ',', '+-', ' '])
+                word = rng.choice(['join', 'join', 'concat'])
+                prog = ('v "%s" join' % sep) if word == 'join' else 'v concat'
+                case = 'xs limits 20000 300 - | eval %s | eval %s | stack | var 76' % (hexsrc('%s var v' % cells.source(('V', mv))), hexsrc(prog))
+                cs.append(case)
+                self.meta[case] = ('vec', ('joinmix', mv, sep if word == 'join' else None))
+                continue
             if op == 'nth':
                 prog, exp = 'v %d nth' % idx, ('nth', vec, idx)
             elif op == 'get':
@@ -279,6 +294,11 @@ class C12(XsProp):
                         want = ('V', vec)
                     elif exp[0] == 'join':
                         want = ('S', ','.join(str(x[1]) for x in vec).encode())
+                    elif exp[0] == 'joinmix':
+                        def rend(v, sep):
+                            parts = [(rend(x[1], sep) if x[0] == 'V' else (x[1] if x[0] == 'S' else str(x[1]).encode())) for x in v]
+                            return (sep.encode() if sep is not None else b'').join(parts)
+                        want = ('S', rend(vec, exp[2]))
                     if not bad:
                         if want == 'err':
                             if res == 'ok':
